@@ -194,6 +194,11 @@ func runC20(c *Ctx) {
 		key := fmt.Sprintf("gates/%s#%d", e.kind, i+1)
 		_, g1 := hasLabel(g, "NE("+optsP+".", ",const:\"\")")
 		_, g2 := hasLabel(g, "T(call:ngo/internal/file.IsValidFileName("+X+"))")
+		if !g2 {
+			// the name was validated where it was produced: by the helper that returns it, before it returns it
+			// (c20ValidatedByProducer)
+			g2 = c20ValidatedByProducer(w, nameV, nil, g, 0)
+		}
 		g3 := labelHas(g, "EQ("+desc(newP)+"#err,nil)")
 		g4 := labelHas(g, "EQ("+desc(newMD.(*ssa.Call))+"#err,nil)")
 		// the name the effect works on
@@ -506,8 +511,8 @@ func c20Order(c *Ctx, INST *ssa.Function, effects []c20Effect, newP, newMD *ssa.
 			}
 		}
 		// destination and source, read in Install's frame; a field of a result object that a constructor fills with one of
-		// its parameters is that argument (c20Origin)
-		dv, dvia := c20Origin(cc.Call.Args[len(cc.Call.Args)-1], e.via)
+		// its parameters is that argument (c20Origin; c20OriginW: also when the object travels by value)
+		dv, dvia := c20OriginW(w, cc.Call.Args[len(cc.Call.Args)-1], e.via)
 		dst := c20SubstVia(desc(dv), dvia)
 		dstOK := strings.HasPrefix(dst, "call:invoke:ngo/dir.SysFS.SysPath(") && strings.HasSuffix(dst, "#0")
 		g := fi.GuardsOf(cc)
@@ -515,7 +520,7 @@ func c20Order(c *Ctx, INST *ssa.Function, effects []c20Effect, newP, newMD *ssa.
 			g = c20GuardsVia(w, cc, e.via)
 		}
 		_, sysOK := hasLabel(g, "EQ("+strings.TrimSuffix(dst, "#0")+"#err,nil)")
-		sv, svia := c20Origin(cc.Call.Args[0], e.via)
+		sv, svia := c20OriginW(w, cc.Call.Args[0], e.via)
 		src := c20SubstVia(desc(sv), svia)
 		srcOK := src == optsP+".PluginPath" || src == desc(newP.Call.Args[2]) || strings.HasPrefix(src, optsP+".")
 		if src2 := c20SubstVia(desc(cc.Call.Args[0]), e.via); src2 == desc(newP.Call.Args[2]) {
@@ -916,8 +921,11 @@ func c20CandidatesW(c *Ctx, k *c20Walk) {
 	// the cells that mark "an executable was recorded": a bool set to true together with the pair and tested false before;
 	// or the cell holding the pointer to the executable's record itself — nil when the walk starts, tested nil before the
 	// store, and the store puts the address of an object there (never nil)
+	// or (fourth pass) the cell holding the executable's path — or its parsed name — itself: a string cell that is empty when
+	// the walk starts, that the callback assigns only behind `cell == ""`, and only a value that is never empty (c20StrMark)
 	marks := map[int]bool{}
 	ptrMarks := map[int]bool{}
+	strMarks := map[int]bool{}
 	switch {
 	case len(odd) > 0:
 		c.Bad("discovery/pair-from-same-entry", rule, odd[0], "the values returned on this exit are not decided by one definition (a cell the walk filled in, or one assignment)")
@@ -992,6 +1000,15 @@ func c20CandidatesW(c *Ctx, k *c20Walk) {
 				if isObj && startsNil && (labelHas(g, "EQ("+k.innerDesc(pr.nc)+",nil)") || labelHas(g, "EQ(nil,"+k.innerDesc(pr.nc)+")")) {
 					ptrMarks[pr.nc] = true
 					has = true
+				}
+			}
+			if pr.ff < 0 && pr.nf < 0 && !has {
+				// the path cell, or the name cell, as its own mark
+				for _, cell := range []int{pr.fc, pr.nc} {
+					if c20StrMark(k, cell, g, parser, parsed0) {
+						strMarks[cell] = true
+						has = true
+					}
 				}
 			}
 			if !has {
@@ -1089,6 +1106,11 @@ func c20CandidatesW(c *Ctx, k *c20Walk) {
 		}
 		for _, b := range c20SortedInts(ptrMarks) {
 			if (labelHas(fallback.Checked, "EQ("+k.outerDesc(b)+",nil)") || labelHas(fallback.Checked, "EQ(nil,"+k.outerDesc(b)+")")) && k.seesOnlyWalk(b) {
+				okF = true
+			}
+		}
+		for _, b := range c20SortedInts(strMarks) {
+			if (labelHas(fallback.Checked, "EQ("+k.outerDesc(b)+",const:\"\")") || labelHas(fallback.Checked, "EQ(const:\"\","+k.outerDesc(b)+")")) && k.seesOnlyWalk(b) {
 				okF = true
 			}
 		}
